@@ -11,6 +11,7 @@ import ast
 import collections
 import shlex
 import json
+import operator
 import os
 import re
 import types
@@ -49,7 +50,7 @@ SAFE_BUILTINS = {
     'enumerate': enumerate, 'zip': zip, 'reversed': reversed, 'sum': sum, 'isinstance': isinstance, 'type': type,
     'dict': dict, 'abs': abs, 'OrderedDict': dict, 'bytes': bytes, 'float': float, 'round': round, 'divmod': divmod, 'map': map, 'filter': filter, 'namedtuple': collections.namedtuple, 'dir': dir, 'next': next, 'iter': iter, 'callable': callable, 'hash': hash, 'id': id, 'pow': pow,
     'Counter': collections.Counter, 'defaultdict': collections.defaultdict, 'ValueError': ValueError, 'KeyError': KeyError, 'TypeError': TypeError,
-    'Exception': Exception, 'IndexError': IndexError, 'AttributeError': AttributeError,
+    'Exception': Exception, 'IndexError': IndexError, 'AttributeError': AttributeError, 'object': object,
 }
 SAFE_ATTR_CALLS = {
     're.escape': re.escape, 're.compile': re.compile, 're.match': re.match, 're.fullmatch': re.fullmatch, 're.search': re.search,
@@ -57,6 +58,9 @@ SAFE_ATTR_CALLS = {
     'os.path.splitext': os.path.splitext, 'os.path.basename': os.path.basename, 'os.path.dirname': os.path.dirname,
     'os.path.join': os.path.join, 'os.path.isabs': os.path.isabs, 'os.path.normpath': os.path.normpath,
 }
+for _n in ('ge', 'gt', 'le', 'lt', 'eq', 'ne', 'not_', 'truth', 'is_', 'is_not', 'add', 'sub', 'mul', 'truediv', 'floordiv', 'mod', 'neg',
+           'and_', 'or_', 'xor', 'contains', 'itemgetter', 'getitem'):
+    SAFE_ATTR_CALLS['operator.' + _n] = getattr(operator, _n)
 SAFE_METHODS = {
     str: {'join', 'replace', 'startswith', 'endswith', 'lower', 'upper', 'strip', 'lstrip', 'rstrip', 'split', 'format', 'isdigit',
           'isdecimal', 'isalpha', 'isalnum', 'find', 'index', 'count', 'title', 'isupper', 'islower', 'splitlines', 'encode',
@@ -296,6 +300,15 @@ class Interp:
         except _Return as r:
             return iter(env['#yield']) if gen else r.v
         return iter(env['#yield']) if gen else None
+
+    def _modconst(self, mod, name):
+        """a module-level constant: evaluated once per interpreter, as the module body is run once per process (a sentinel
+        `_MISSING = object()` is the same object at every read)"""
+        memo = self.__dict__.setdefault('_modconst_memo', {})
+        k = (mod.name, name)
+        if k not in memo:
+            memo[k] = self.expr(mod.consts[name], {}, mod)
+        return memo[k]
 
     def _class_env(self, c, upto):
         """names a class-level assignment may use: the class-level constants assigned before it"""
@@ -563,12 +576,12 @@ class Interp:
             if s is not None and s.kind in ('func', 'class'):
                 return ('#sym', s)
             if e.id in mod.consts and mod.consts[e.id] is not None:
-                return self.expr(mod.consts[e.id], {}, mod)
+                return self._modconst(mod, e.id)
             if s is not None and s.kind == 'const':
                 tm, _, tn = s.target.rpartition('.')
                 m2 = self.prog.modules.get(tm)
                 if m2 is not None and m2.consts.get(tn) is not None:
-                    return self.expr(m2.consts[tn], {}, m2)
+                    return self._modconst(m2, tn)
             if e.id in self.extra_names:
                 return self.extra_names[e.id]
             if e.id in SAFE_BUILTINS:
